@@ -137,6 +137,57 @@ pub fn sweep(run: &Run, tier: Tier) -> Totals {
                 break;
             }
         }
+        // call order: the lookups are pure, so an earlier lookup must not change a later one.  For every
+        // subset: the lookup repeated; then every neighbour that differs in exactly ONE ray square (inner or
+        // edge), asked right after it (a "last lookup" cache keyed by any truncation of the occupancy that
+        // drops a square aliases exactly such a pair); then the other slider kind on the same square.
+        {
+            let look = |rk: bool, occ: u64| -> Result<u64, String> { guard::lib(|| if rk { chess::get_rook_moves(lsq(s), BitBoard(occ)).0 } else { chess::get_bishop_moves(lsq(s), BitBoard(occ)).0 }) };
+            #[cfg(target_feature = "bmi2")]
+            let look_bmi = |rk: bool, occ: u64| -> Result<u64, String> { guard::lib(|| if rk { chess::get_rook_moves_bmi(lsq(s), BitBoard(occ)).0 } else { chess::get_bishop_moves_bmi(lsq(s), BitBoard(occ)).0 }) };
+            let full = mask;
+            let other_dirs = if is_rook { &BISHOP_D } else { &ROOK_D };
+            let bits: Vec<u64> = (0..64u8).filter(|q| full & (1u64 << q) != 0).map(|q| 1u64 << q).collect();
+            let mut sub = 0u64;
+            loop {
+                let mut seq: Vec<(bool, u64)> = vec![(is_rook, sub), (is_rook, sub)];
+                for b in bits.iter() {
+                    seq.push((is_rook, sub));
+                    seq.push((is_rook, sub ^ b));
+                }
+                seq.push((!is_rook, sub));
+                seq.push((is_rook, sub));
+                for (rk, occ) in seq {
+                    let want = walk(s, occ, if rk == is_rook { dirs } else { other_dirs });
+                    let got = look(rk, occ);
+                    n += 1;
+                    #[allow(unused_mut)]
+                    let mut bad = if got != Ok(want) { Some(("magic", got)) } else { None };
+                    #[cfg(target_feature = "bmi2")]
+                    {
+                        let gb = look_bmi(rk, occ);
+                        nb += 1;
+                        if bad.is_none() && gb != Ok(want) {
+                            bad = Some(("BMI2", gb));
+                        }
+                    }
+                    if let Some((which, g)) = bad {
+                        run.report(Violation::new(
+                            "C15",
+                            if rk { "rook-order" } else { "bishop-order" },
+                            "lookup differs from ray walking when asked right after another lookup",
+                            format!("{} on {} with occupancy {:#018x} ({which} lookup, asked in a sequence of neighbouring occupancies around {:#018x}): {:?}, ray walking {:#018x}", if rk { "rook" } else { "bishop" }, sq_name(s), occ, sub, g.map(|x| format!("{x:#018x}")), want),
+                            json!({"kind": "slider", "piece": if rk {"rook"} else {"bishop"}, "square": sq_name(s), "occupancy": format!("{occ:#018x}"), "build": build_name()}),
+                        ));
+                        return;
+                    }
+                }
+                sub = sub.wrapping_sub(mask) & mask;
+                if sub == 0 {
+                    break;
+                }
+            }
+        }
         // pairs of off-ray squares as noise: with every ray subset (thorough) or with the empty,
         // the full and every single-square ray subset (quick)
         let off: Vec<u8> = (0..64u8).filter(|q| outside & (1u64 << q) != 0 && *q != s).collect();
@@ -246,7 +297,7 @@ pub fn build_name() -> &'static str {
     }
 }
 
-pub const RULE: &str = "for each of the 64 squares and each of rook / bishop: EVERY subset of the squares on its rays (edge squares included; 2^14 per rook square, up to 2^13 per bishop square) combined with a catalogue of occupancies of the non-ray squares (none, all, two checkerboards, own square, every single non-ray square; thorough: also adjacent pairs); additionally population ladders over the non-ray squares, every triple of non-ray squares within distance 2 of the slider, and EVERY PAIR of non-ray squares (with and without the slider's own square) combined with the empty, the full, every single-square and every all-but-one ray subset (quick) or with every ray subset (thorough); lookup must equal walking each ray up to and including the first occupied square. Run in the default build (magic multiplication) and, as a child process, in the +bmi2 build where the pext/pdep variants are judged as well on every input (so bmi == magic == ray walk). distinct_nontrivial = distinct (square, piece, ray subset) cases";
+pub const RULE: &str = "for each of the 64 squares and each of rook / bishop: EVERY subset of the squares on its rays (edge squares included; 2^14 per rook square, up to 2^13 per bishop square) combined with a catalogue of occupancies of the non-ray squares (none, all, two checkerboards, own square, every single non-ray square; thorough: also adjacent pairs); additionally population ladders over the non-ray squares, every triple of non-ray squares within distance 2 of the slider, and EVERY PAIR of non-ray squares (with and without the slider's own square) combined with the empty, the full, every single-square and every all-but-one ray subset (quick) or with every ray subset (thorough); lookup must equal walking each ray up to and including the first occupied square; call order: for every ray subset the lookup repeated, every occupancy that differs in exactly one ray square asked right after it, and the other slider kind on the same square in between. Run in the default build (magic multiplication) and, as a child process, in the +bmi2 build where the pext/pdep variants are judged as well on every input (so bmi == magic == ray walk). distinct_nontrivial = distinct (square, piece, ray subset) cases";
 
 /// Worker mode in the +bmi2 binary: run the sweep, print one JSON line.
 pub fn worker(tier: Tier) -> i32 {
